@@ -352,9 +352,8 @@ fn parse_subframe(br: &mut Bits, n: usize, bps: u32, issues: &mut Vec<String>) -
                 if v < lo || v > hi {
                     issues.push(format!("sub.sample_range: reconstructed sample {v} outside {w} bits"));
                 }
-                // like the decoders in use (libFLAC, claxon) the reconstruction wraps at 32 bits;
-                // a stream that relies on it is flagged above, not misdecoded
-                let v = v as i32 as i64;
+                // exact arithmetic as RFC 9639 defines the synthesis: no 32-bit wrap-around. (libFLAC
+                // and claxon wrap; a stream that relies on that is flagged above and mis-decodes here.)
                 sf.samples.push(v);
             }
         }
@@ -396,9 +395,8 @@ fn parse_subframe(br: &mut Bits, n: usize, bps: u32, issues: &mut Vec<String>) -
                 if v < lo || v > hi {
                     issues.push(format!("sub.sample_range: reconstructed sample {v} outside {w} bits"));
                 }
-                // like the decoders in use (libFLAC, claxon) the reconstruction wraps at 32 bits;
-                // a stream that relies on it is flagged above, not misdecoded
-                let v = v as i32 as i64;
+                // exact arithmetic as RFC 9639 defines the synthesis: no 32-bit wrap-around. (libFLAC
+                // and claxon wrap; a stream that relies on that is flagged above and mis-decodes here.)
                 sf.samples.push(v);
             }
         }
